@@ -35,10 +35,10 @@ for pid, (cat, text, ref) in CHECKS.items():
         "technique": CORE_TECH,
     })
 
-EXTRA = os.path.join(HERE, "bin", "manifest_extra.json")
-if os.path.exists(EXTRA):
-    for c in json.load(open(EXTRA)):
-        checks = [x for x in checks if x["property_id"] != c["property_id"]] + [c]
+import glob
+for f in sorted(glob.glob(os.path.join(HERE, "bin", "manifest.d", "*.json"))):
+    c = json.load(open(f))
+    checks = [x for x in checks if x["property_id"] != c["property_id"]] + [c]
 checks.sort(key=lambda c: c["property_id"])
 claimed = {c["property_id"] for c in checks}
 NA_REASON = {}
